@@ -8,10 +8,16 @@ FIRST = {
  "C04-m1": "caught (R-INITORDER)", "C04-m2": "missed", "C05-m1": "missed", "C05-m2": "missed", "C06-m1": "missed", "C06-m2": "missed",
  "C07-m1": "missed", "C07-m2": "missed", "C08-m1": "caught (R-SCRATCH)", "C08-m2": "missed", "C09-m1": "missed", "C09-m2": "missed",
  "C10-m1": "missed", "C10-m2": "caught (R-PAIR)", "C13-m1": "caught (R-SCRATCH)", "C13-m2": "missed", "C14-m1": "caught (R-LOCK)", "C14-m2": "caught (R-READONLY)",
+ # exploratory round for the five properties that had no claim yet: verdict of the rules that existed then
+ "C11-xm1": "missed (no claim yet)", "C11-xm2": "missed (no claim yet)", "C11-xm3": "missed (no claim yet)", "C11-xm4": "missed (no claim yet)",
+ "C12-xm1": "caught under C05, C06 (R-CONST); no claim on C12 yet", "C12-xm2": "missed (no claim yet)", "C12-xm3": "caught under C08 (R-CONST); no claim on C12 yet", "C12-xm4": "missed (no claim yet)",
+ "C16-xm1": "missed (no claim yet)", "C16-xm2": "missed (no claim yet)", "C16-xm3": "missed (no claim yet)", "C16-xm4": "missed (no claim yet)",
+ "C17-xm1": "caught under C08, C12 (R-CONST); no claim on C17 yet", "C17-xm2": "missed (no claim yet)", "C17-xm3": "missed (no claim yet)", "C17-xm4": "missed (no claim yet)",
+ "C20-xm1": "missed (no claim yet)", "C20-xm2": "missed (no claim yet)", "C20-xm3": "missed (no claim yet)", "C20-xm4": "missed (no claim yet)",
  "C15-m1": "caught (R-STICKY)", "C15-m2": "missed", "C18-m1": "caught (R-SIBTREE)", "C18-m2": "missed", "C19-m1": "caught (R-ORDER)", "C19-m2": "missed",
 }
 import itertools
-for l in itertools.chain(open('/verif/seeded/ROUND2_FIRST_TRY.txt'), open('/verif/seeded/ROUND3_FIRST_TRY.txt'), open('/verif/seeded/ROUND4_FIRST_TRY.txt')):
+for l in itertools.chain(open('/verif/seeded/ROUND2_FIRST_TRY.txt'), open('/verif/seeded/ROUND3_FIRST_TRY.txt'), open('/verif/seeded/ROUND4_FIRST_TRY.txt'), open('/verif/seeded/ROUND5_FIRST_TRY.txt')):
     m = re.match(r"(\S+)\s+own=(\S+)\s*(.*?)\s+others=(.*)", l)
     if not m: continue
     name, own, keys, others = m.groups()
